@@ -1,5 +1,5 @@
 import LyModel.Diff.ApplyDiff
-import LyModel.Diff.Lemmas13Rev
+import LyModel.Diff.Lemmas13Inv
 /-!
 # The diff of two well-formed trees is an exact diff (C13 `diff_exact`; bridge between the C06 and the C13 lemma files)
 
@@ -617,5 +617,141 @@ theorem exactDiff_diff (S : Schema) (A B : List DNode) (hA : wfForest S A = true
   have := exGoal_all S (Nat.max (heightL A) (heightL B) + 1) true [] A B ctx
     (Nat.lt_succ_of_le (Nat.le_max_left _ _)) (Nat.lt_succ_of_le (Nat.le_max_right _ _))
   simpa [exactDiff, diff, diffFull] using this
+
+end LyModel.Diff
+
+namespace LyModel.Diff
+open LyModel LyModel.Tree
+
+/-! ### the computed diff is in the standard form `reverse_involutive` asks for (`stdL`) -/
+
+theorem stdL_iff_forall : ∀ (l : List DNode), stdL l = true ↔ ∀ x ∈ l, stdN x = true
+  | [] => by simp [stdL]
+  | x :: xs => by simp [stdL, stdL_iff_forall xs]
+
+theorem create_bytes_eq : Op.create.bytes = bs "create" := by decide +kernel
+theorem delete_bytes_eq : Op.delete.bytes = bs "delete" := by decide +kernel
+
+theorem stdN_create_intro (d : DNode) (h : d.metas = [("operation", Op.create.bytes)]) : stdN d = true := by
+  cases d <;> simp only [DNode.metas] at h <;> subst h
+  · have ho := ownOp_cons (.inner ‹_› ‹_› [("operation", Op.create.bytes)] ‹_›) .create [] rfl
+    rw [create_bytes_eq] at ho
+    simp [stdN, ho, create_bytes_eq]
+  · have ho := ownOp_cons (.term ‹_› ‹_› [("operation", Op.create.bytes)] ‹_›) .create [] rfl
+    rw [create_bytes_eq] at ho
+    simp [stdN, ho, create_bytes_eq]
+
+theorem stdN_delete_intro (d : DNode) (h : d.metas = [("operation", Op.delete.bytes)]) : stdN d = true := by
+  cases d <;> simp only [DNode.metas] at h <;> subst h
+  · have ho := ownOp_cons (.inner ‹_› ‹_› [("operation", Op.delete.bytes)] ‹_›) .delete [] rfl
+    rw [delete_bytes_eq] at ho
+    simp [stdN, ho, delete_bytes_eq]
+  · have ho := ownOp_cons (.term ‹_› ‹_› [("operation", Op.delete.bytes)] ‹_›) .delete [] rfl
+    rw [delete_bytes_eq] at ho
+    simp [stdN, ho, delete_bytes_eq]
+
+theorem stdN_term_nometa (d : DNode) (ht : d.isTerm = true) (h : d.metas = []) : stdN d = true := by
+  have ho := ownOp_nometa d h
+  cases d with
+  | inner => simp [DNode.isTerm] at ht
+  | term s f m v => simp [stdN, ho]
+
+def StdGoal (S : Schema) (fuelD : Nat) : Prop :=
+  ∀ (top : Bool) (as bs : List DNode), wfL S as = true → wfL S bs = true → canonB S as = true → canonB S bs = true →
+    stdL (diffSiblings S true fuelD top as bs).out = true
+
+theorem stdGoal_all (S : Schema) : ∀ (fuelD : Nat), StdGoal S fuelD
+  | 0 => by intro top as bs _ _ _ _; simp [diffSiblings, stdL]
+  | fuelD + 1 => by
+    intro top as bs hwa hwb hca hcb
+    have IH := stdGoal_all S fuelD
+    obtain ⟨_, L⟩ := levelD S fuelD top as bs hwa hwb hca hcb
+    generalize (diffSiblings S true (fuelD + 1) top as bs).out = out at L
+    have hrec0 := diffSiblings_nil S true fuelD false
+    rw [stdL_iff_forall]
+    intro d hd
+    rcases L.sound d hd with ⟨a, ha, hn⟩ | ⟨b, hb, hp, rfl⟩
+    · have hwa1 := wfL_mem S as a hwa ha
+      have hnd := plainSid_not_dupInst S a.sid (wfNode_plain S a hwa1)
+      cases hn with
+      | del hp => exact stdN_delete_intro _ (setMetas_metas _ _)
+      | term b atr hp hat =>
+        have hbm := partner_mem S bs a b hp
+        have hwb1 := wfL_mem S bs b hwb hbm
+        have hsb : b.sid = a.sid := kkey_sid S b a (partner_kkey S bs a b hnd hp)
+        have hterm : S.isTerm a.sid = true := by
+          rcases plainAttrs_cases S a b atr hat with ⟨h, _, _⟩ | ⟨h | h, _, _⟩
+          · exact isTerm_of_kind S _ (Or.inl h)
+          · exact isTerm_of_kind S _ (Or.inl h.1)
+          · exact isTerm_of_kind S _ (Or.inr h)
+        obtain ⟨fa, ma, va, hae⟩ := term_of_shape S a (wfNode_shape S a hwa1) hterm
+        obtain ⟨fb, mb, vb, hbe⟩ := term_of_shape S b (wfNode_shape S b hwb1) (by rw [hsb]; exact hterm)
+        rw [hsb] at hbe
+        generalize a.sid = s at hae hbe
+        subst hae hbe
+        have hdr : dupRec (.term s fb mb vb) = .term s fb [] vb := rfl
+        rw [hdr]
+        rcases plainAttrs_term_cases S s fa fb ma mb va vb atr hat with ⟨_, _, rfl⟩ | ⟨_, rfl⟩
+        · rw [withAttrs_replace]
+          have ho := ownOp_cons (.term s fb [("operation", Op.replace.bytes), ("orig-default", boolBytes fa.dflt),
+            ("orig-value", va)] vb) .replace _ rfl
+          simp [stdN, ho]
+        · rw [withAttrs_none]
+          have ho := ownOp_cons (.term s fb [("operation", Op.none.bytes), ("orig-default", boolBytes fa.dflt)] vb)
+            .none _ rfl
+          simp [stdN, ho]
+      | parent b src f m hp hat hne hsrc htop hm =>
+        have hbm := partner_mem S bs a b hp
+        have hwb1 := wfL_mem S bs b hwb hbm
+        have hsb : b.sid = a.sid := kkey_sid S b a (partner_kkey S bs a b hnd hp)
+        have hin := inner_of_sub S _ a b hwa1 hwb1 hsb hrec0 hne
+        -- the children: key copies and the sub-diff
+        have hkids : stdL ((dupShallow S src).kids ++ (subOf S (diffSiblings S true fuelD false) a b).out) = true := by
+          rw [stdL_iff_forall]
+          intro x hx
+          rcases List.mem_append.1 hx with hx | hx
+          · rw [dupShallow_kids] at hx
+            obtain ⟨y, hy, rfl⟩ := List.mem_map.1 hx
+            have hyt : y.isTerm = true := by
+              have hsrcw : wfNode S src = true := by rcases hsrc with h | h <;> subst h <;> assumption
+              have hsrci : S.isInner src.sid = true := by
+                rcases hsrc with h | h <;> subst h
+                · exact hin
+                · rw [hsb]; exact hin
+              obtain ⟨fs, ms, ks, hse⟩ := inner_of_shape S src (wfNode_shape S src hsrcw) hsrci
+              rw [hse] at hsrcw hy
+              exact (wfNode_inner S _ fs ms ks hsrcw).keysTerm y hy
+            exact stdN_term_nometa _ (by rw [setMetas_isTerm]; exact hyt) (setMetas_metas _ _)
+          · have hsub : stdL (subOf S (diffSiblings S true fuelD false) a b).out = true := by
+              obtain ⟨fa, ma, ka, hae⟩ := inner_of_shape S a (wfNode_shape S a hwa1) hin
+              obtain ⟨fb, mb, kb, hbe⟩ := inner_of_shape S b (wfNode_shape S b hwb1) (by rw [hsb]; exact hin)
+              rw [hae] at hwa1
+              rw [hbe] at hwb1
+              have hia := wfNode_inner S _ fa ma ka hwa1
+              have hib := wfNode_inner S _ fb mb kb hwb1
+              have := IH false (noKeys S ka) (noKeys S kb)
+                (wfL_of_forall S _ (fun x hx => wfL_mem S ka x hia.kids ((noKeys_sublist S ka).subset hx)))
+                (wfL_of_forall S _ (fun x hx => wfL_mem S kb x hib.kids ((noKeys_sublist S kb).subset hx)))
+                (canonB_sublist S (noKeys_sublist S ka) hia.canon) (canonB_sublist S (noKeys_sublist S kb) hib.canon)
+              rw [hae, hbe]
+              simpa [subOf, DNode.kids] using this
+            exact (stdL_iff_forall _).1 hsub x hx
+        rcases hm with h | h <;> subst h
+        · have ho := ownOp_nometa (.inner (dupShallow S src).sid f []
+            ((dupShallow S src).kids ++ (subOf S (diffSiblings S true fuelD false) a b).out)) rfl
+          simp only [stdN, ho]
+          exact hkids
+        · have ho := ownOp_cons (.inner (dupShallow S src).sid f [("operation", Op.none.bytes)]
+            ((dupShallow S src).kids ++ (subOf S (diffSiblings S true fuelD false) a b).out)) .none [] rfl
+          simp only [stdN, ho]
+          exact hkids
+    · exact stdN_create_intro _ (setMetas_metas _ _)
+
+/-- the diff of two well-formed trees has the metadata layout `lyd_diff_add` writes -/
+theorem stdL_diff (S : Schema) (A B : List DNode) (hA : wfForest S A = true) (hB : wfForest S B = true) :
+    stdL (diff S true A B) = true := by
+  simp only [wfForest, Bool.and_eq_true] at hA hB
+  have := stdGoal_all S (Nat.max (heightL A) (heightL B) + 1) true A B hA.1.1 hB.1.1 hA.1.2 hB.1.2
+  simpa [diff, diffFull] using this
 
 end LyModel.Diff
